@@ -1,12 +1,151 @@
+// hdrcheck is a repository-specific static analyser for celestiaorg/go-header.
+// It decides the structural clauses of properties C01…C19 (see /verif/DESIGN.md)
+// from the type-checked sources and SSA form of /repo; it never runs repository code.
 package main
 
 import (
+	"flag"
 	"fmt"
-	"golang.org/x/tools/go/packages"
+	"os"
+	"path/filepath"
+	"sort"
+	"strconv"
+	"strings"
+	"time"
+
+	"hdrcheck/an"
+	"hdrcheck/rules"
+	"hdrcheck/selftest"
 )
 
 func main() {
-	cfg := &packages.Config{Mode: packages.LoadSyntax, Dir: "/repo"}
-	pkgs, err := packages.Load(cfg, "./...")
-	fmt.Println(len(pkgs), err)
+	var (
+		property = flag.String("property", "", "property id (C01…C19) or 'all'")
+		tier     = flag.String("tier", "", "quick | thorough (default: $VERIF_TIER or quick)")
+		repo     = flag.String("repo", "/repo", "repository to analyse")
+		verif    = flag.String("verif", "", "verification directory (default: directory above the binary, or /verif)")
+		explain  = flag.String("explain", "", "replay file: re-evaluate the property and print the obligation recorded there")
+		self     = flag.String("selftest", "", "run the checker self-test (broken + benign variants) for a property id or 'all'")
+		dump     = flag.String("dump", "", "debug: dump terms/facts of a function, e.g. header.Verify")
+		jobs     = flag.Int("j", 8, "parallel child processes for self-tests")
+		variant  = flag.String("variant", "", "internal: run one self-test variant (prop/index or prop/base)")
+	)
+	flag.Parse()
+	if *tier == "" {
+		*tier = os.Getenv("VERIF_TIER")
+	}
+	if *tier == "" {
+		*tier = "quick"
+	}
+	if *tier != "quick" && *tier != "thorough" {
+		fmt.Println("bad -tier")
+		os.Exit(2)
+	}
+	if *verif == "" {
+		*verif = "/verif"
+		if exe, err := os.Executable(); err == nil {
+			d := filepath.Dir(filepath.Dir(exe))
+			if _, err := os.Stat(filepath.Join(d, "properties.jsonl")); err == nil {
+				*verif = d
+			}
+		}
+	}
+	seed := 0
+	if s := os.Getenv("VERIF_SEED"); s != "" {
+		seed, _ = strconv.Atoi(s)
+	}
+	os.Unsetenv("GOWORK")
+
+	if *dump != "" {
+		p, err := an.Load(an.LoadOpts{Dir: *repo})
+		if err != nil {
+			fmt.Println("LOAD ERROR:", err)
+			os.Exit(2)
+		}
+		an.Dump(p, *dump)
+		return
+	}
+
+	if *variant != "" {
+		os.Exit(selftest.Child(*repo, *variant))
+	}
+	if *self != "" {
+		sum, code := selftest.Run(*repo, *verif, *self, *jobs)
+		sum.Print()
+		os.Exit(code)
+	}
+
+	if *property == "" {
+		fmt.Println("usage: hdrcheck -property Cxx [-tier quick|thorough]")
+		os.Exit(2)
+	}
+	ids := []string{*property}
+	if *property == "all" {
+		ids = rules.IDs()
+	}
+	sort.Strings(ids)
+	for _, id := range ids {
+		if rules.Get(id) == nil {
+			fmt.Printf("unknown property %q (known: %s)\n", id, strings.Join(rules.IDs(), " "))
+			os.Exit(2)
+		}
+	}
+
+	start := time.Now()
+	p, err := an.Load(an.LoadOpts{Dir: *repo, Full: false})
+	if err != nil {
+		// a tree that does not type-check cannot be analysed: the check fails.
+		fmt.Println("LOAD ERROR:", err)
+		for _, id := range ids {
+			fmt.Printf("VIOLATION property=%s replay=%s\n", id, "/dev/null")
+		}
+		os.Exit(1)
+	}
+	exit := 0
+	for _, id := range ids {
+		t0 := time.Now()
+		if len(ids) == 1 {
+			t0 = start
+		}
+		code := runOne(p, id, *tier, *verif, *repo, *jobs, seed, t0)
+		if code > exit {
+			exit = code
+		}
+	}
+	if *explain != "" {
+		b, err := os.ReadFile(*explain)
+		if err == nil {
+			fmt.Printf("--- recorded obligation (%s):\n%s\n", *explain, b)
+		}
+	}
+	os.Exit(exit)
+}
+
+func runOne(p *an.Prog, id, tier, verif, repo string, jobs, seed int, start time.Time) (code int) {
+	r := rules.Get(id)
+	ctx := an.NewCtx(p, id, tier)
+	func() {
+		defer func() {
+			if e := recover(); e != nil {
+				ctx.Undecided(id+".panic", "analyser-panic", "the analyser must not panic", nil, nil, fmt.Sprint(e))
+			}
+		}()
+		r.Run(ctx)
+	}()
+	extra := map[string]any{"not_decided": r.NotDecided}
+	stCode := 0
+	if tier == "thorough" {
+		// thorough = the same obligations + the checker's own sensitivity self-test:
+		// every broken variant of the current tree must be reported, every benign one must stay silent.
+		sum, c := selftest.Run(repo, verif, id, jobs)
+		sum.Print()
+		extra["selftest"] = sum
+		stCode = c
+	}
+	res := ctx.Finish(verif, start, seed, r.Explanation, append([]string{an.PureNote}, r.Assumptions...), extra)
+	if res.ExitCode == 0 && stCode != 0 {
+		fmt.Printf("SELFTEST FAILED for %s: the checker itself misbehaves on its variants (exit 2, no verdict on the property)\n", id)
+		return 2
+	}
+	return res.ExitCode
 }
